@@ -448,7 +448,7 @@ def run_case(case):
                         for oo in outs:
                             wdrop, where_, sc_ = MT.action_drop(solver.eom, manager.thermodynamics, oo)
                             ends.append({"drop_over_scale": wdrop / sc_, "where": where_,
-                                         "stationary": bool(wdrop >= -1e-3 * sc_)})
+                                         "stationary": bool(wdrop >= -1e-2 * sc_)})
                         obs["start_dependence"]["end_states"] = ends
                         early = all(e["stationary"] for e in ends)
                         if not early:
